@@ -507,7 +507,9 @@ class DFState:
                     continue
                 if data <= set(i.on_values):
                     return i
-                elif data > set(i.on_values):
+                elif not data.isdisjoint(i.on_values):
+                    # some of the symbols take this transition and some do not: there is no single answer
+                    # (falling back to Else here would claim the Else transition for symbols that never take it)
                     return None
             return self[DFTransition.Else]
         else:
